@@ -316,7 +316,7 @@ func writeEvidence(dir, prop, tier string, seed int, states []*instState, wall, 
 			stubs[s] = true
 		}
 		instList = append(instList, map[string]interface{}{"name": st.in.Name, "entry": st.in.Entry, "params": st.in.Params, "bound": st.in.Bound, "note": st.in.Note,
-			"paths": st.paths, "path_ends": st.ends, "ssa_instructions": st.steps, "merges": st.merges, "queries": st.queries, "obligations_unsat": st.oblUnsat, "obligations_sat": st.oblSat,
+			"paths": st.paths, "path_ends": st.ends, "ssa_instructions": st.steps, "merges": st.merges, "queries": st.queries, "obligations_unsat": st.oblUnsat, "obligations_sat": st.oblSat, "secrecy_sinks_checked": st.sinks,
 			"solver_s": round2(st.solverT.Seconds()), "wall_s": round2(st.wall().Seconds()), "reach": reach, "violations": vl, "inconclusive": st.unknowns, "engine_errors": st.engineErr,
 			"stopped": st.stopped, "unwind": st.in.Unwind, "merge_list": st.in.Merge, "stub_sets": st.in.Stubs, "logic": st.in.Logic, "expected_witnesses": st.in.Expect, "functions_from_ssa": len(st.instr)})
 	}
